@@ -13,7 +13,10 @@
    Python-block extractors take the opener line's own indentation off the body lines first:
    without_opener_indent) and F17m (extract_join_choice_block: comment lines at any indentation are
    collected with the block and take no part in the dedent nor in the parse: join_kept); these two
-   are not parameterised (the `_cur` versions have them too).  Two parameters keep the
+   are not parameterised (the `_cur` versions have them too), nor are the fixes F17n
+   (_is_join_block_terminator also ends the block of a `-> @join` choice at the legacy forms of the block
+   directives: legacy_markers) and F17o (_extract_py_old_syntax raises "<<py block not closed" when the `>>`
+   is missing, as _extract_py_new_syntax does for @endpy: py_old_go).  Two parameters keep the
    earlier code expressible (for the `_refuted` witnesses of Props/C11b.v and for checking an
    unpatched copy):
      fixed = false : extract_conditional_block as of commit 45ce265:
@@ -237,6 +240,10 @@ Fixpoint rstrip_colons (s : string) : string :=
       end
   end.
 
+(* fix F17n: the same directives in the legacy <<...>> syntax, `stripped.startswith(marker)` *)
+Definition legacy_markers : list string :=
+  ["<<if "; "<<elif "; "<<else>>"; "<<endif>>"; "<<for "; "<<endfor>>"; "<<py"].
+
 Definition is_join_block_terminator (line : string) : bool :=
   let stripped := strip line in
   if negb (nonempty stripped) then false
@@ -244,7 +251,8 @@ Definition is_join_block_terminator (line : string) : bool :=
   else if startswith stripped "+ {" || startswith stripped "* {" then true
   else if String.eqb stripped "@join" then true
   else if startswith stripped ":: " then true
-  else existsb (fun m => startswith stripped m || String.eqb stripped (rstrip_colons m)) block_markers.
+  else if existsb (fun m => startswith stripped m || String.eqb stripped (rstrip_colons m)) block_markers then true
+  else existsb (fun m => startswith stripped m) legacy_markers.
 
 (* ------------------------------------------------------------------------------------------- *)
 (* extract_python_block                                                                         *)
@@ -284,18 +292,20 @@ Definition extract_py_new_syntax_v (fx : bool) (lines : list string) (start : na
       else py_new_go fx line start (skipn (S start) lines) [] 1
   end.
 
-(* _extract_py_old_syntax: never raises on the lines the callers hand it; an unclosed block runs to
-   the end of `lines` and reports one line more than there are (i - start_index + 1 with
-   i = len(lines)).  The test for `>>` reads the raw line; everything after it reads the line without
+(* _extract_py_old_syntax.  Fix F17o: when the loop ends without having found `>>` it raises the
+   "Unclosed Block Error ... <<py block not closed" diagnostic (format_error with line_num=start_index,
+   like _extract_py_new_syntax; same site tag: the two messages differ only in the spelling of the
+   opener); before the fix the block silently ran to the end of `lines`.
+   The test for `>>` reads the raw line; everything after it reads the line without
    the opener's indent (`line = _without_opener_indent(line, opener)`).
    The third arm of the Python `if/elif/else` (append the line unchanged) is unreachable: a
    non-blank line has just set base_indent. *)
-Fixpoint py_old_go (opener : string) (rest : list string) (base : option nat) (code_lines : list string)
-         (k : nat) : string * nat :=
+Fixpoint py_old_go (opener : string) (start : nat) (rest : list string) (base : option nat)
+         (code_lines : list string) (k : nat) : pres (string * nat) :=
   match rest with
-  | [] => (join nl code_lines, S k)
+  | [] => PDiag (DSyntax "py-unclosed" start)                  (* not found_closer *)
   | raw :: rest' =>
-      if String.eqb (strip raw) ">>" then (join nl code_lines, S k)
+      if String.eqb (strip raw) ">>" then POk (join nl code_lines, S k)
       else
         let line := without_opener_indent raw opener in
         let blank := negb (nonempty (strip line)) in
@@ -310,20 +320,20 @@ Fixpoint py_old_go (opener : string) (rest : list string) (base : option nat) (c
                            then drop b line else line
                | None => line
                end in
-        py_old_go opener rest' base' (code_lines ++ [adjusted]) (S k)
+        py_old_go opener start rest' base' (code_lines ++ [adjusted]) (S k)
   end.
 
 (* `opener = lines[start_index]`: extract_python_block, the only caller, has read that very element
    before (an index beyond the list is its PInternal IIndex); the default "" is never used *)
-Definition extract_py_old_syntax (lines : list string) (start : nat) : string * nat :=
-  py_old_go (nth start lines EmptyString) (skipn (S start) lines) None [] 1.
+Definition extract_py_old_syntax (lines : list string) (start : nat) : pres (string * nat) :=
+  py_old_go (nth start lines EmptyString) start (skipn (S start) lines) None [] 1.
 
 Definition extract_python_block_v (fx : bool) (lines : list string) (start : nat) : pres (string * nat) :=
   match nth_error lines start with
   | None => PInternal IIndex                                   (* lines[start_index] *)
   | Some line =>
       let stripped := strip line in
-      if startswith stripped "<<py" then POk (extract_py_old_syntax lines start)
+      if startswith stripped "<<py" then extract_py_old_syntax lines start
       else if startswith stripped "@py" then extract_py_new_syntax_v fx lines start
       else PDiag (DValue "python-block-on-non-python-line")
   end.
